@@ -332,6 +332,23 @@ class IndexVals:
             raise Undecided("iteration over an index of unknown labels")
         return iter(list(self.labels))
 
+    def duplicated(self, *a, **k):
+        if self.labels is None or a or k:
+            raise Undecided("duplicated() of an index of unknown labels")
+        seen, out = set(), []
+        for l in self.labels:
+            out.append(l in seen)
+            seen.add(l)
+        r = Vec(out)
+        r.exact = True
+        return r
+
+    @property
+    def is_unique(self):
+        if self.labels is None:
+            return Opaque("is_unique")
+        return len(set(self.labels)) == len(self.labels)
+
     def __repr__(self):
         return "<index>"
 
@@ -1164,6 +1181,24 @@ def df_method(it, obj, name, args, kw):
     ai = _ai()
     if name == "copy":
         return obj.copy()
+    if name == "set_index" and len(args) == 1 and isinstance(args[0], IndexVals) and not kw:
+        d = obj.copy()
+        d.index = "any"
+        if args[0].labels is not None:
+            if len(args[0].labels) != obj.n:
+                raise Raised("ValueError", "Length mismatch: set_index with an index of another length")
+            d.labels = list(args[0].labels)
+        else:
+            d.labels = None
+        return d
+    if name == "reindex" and isinstance(kw.get("index"), IndexVals) and kw["index"].labels is not None and obj.labels is not None and obj.exact and len(kw) == 1 and not args:
+        # rows looked up by label; a label the table does not have gives a row of missing values (duplicated labels refuse)
+        if len(set(obj.labels)) != len(obj.labels):
+            raise Raised("ValueError", "cannot reindex on an axis with duplicate labels")
+        pos = [obj.labels.index(l) if l in obj.labels else None for l in kw["index"].labels]
+        d = DF({c: Vec([v.v[i] if i is not None else None for i in pos], aligned=True) for c, v in obj.cols.items()}, len(pos), "any")
+        d.exact, d.labels = True, list(kw["index"].labels)
+        return d
     if name == "reindex" and "columns" in kw:
         return DF({c: obj.cols.get(c, Vec([None] * obj.n)) for c in kw["columns"]}, obj.n, obj.index, obj.pop)
     if name == "rename" and "columns" in kw:
@@ -1369,12 +1404,31 @@ def ext_call(it, dotted, args, kw):
         return _np_elem(f_sqrt)(it, args[0])
     if name in ("np.round", "np.around", "np.rint"):
         return _np_elem(f_round)(it, args[0])
+    if name in ("np.mod", "np.remainder") and len(args) == 2 and num(args[1]) and not isinstance(args[1], bool) and args[1] > 0:
+        m = args[1]
+
+        def mod1(x):
+            if is_nan(x) or isinstance(x, Opaque):
+                return x
+            if num(x):
+                return x % m
+            return fatom("mod", [T(x), T(m)], 0, m)               # Python / numpy remainder by a positive constant lies in [0, m)
+        return lift1(mod1, args[0]) if isinstance(args[0], Vec) else mod1(args[0])
     if name == "np.maximum":
         return lift2(lambda a, b: a if is_nan(a) else (b if is_nan(b) else f_max(a, b)), args[0], args[1])
     if name == "np.minimum":
         return lift2(lambda a, b: a if is_nan(a) else (b if is_nan(b) else f_min(a, b)), args[0], args[1])
     if name == "np.clip":
         return vec_method(it, args[0], "clip", list(args[1:]), kw) if isinstance(args[0], Vec) else f_min(f_max(args[0], args[1]), args[2])
+    if name == "pd.Index" and len(args) == 1 and not kw:
+        items = list(it.iterate(args[0]))
+        labels = []
+        for x in items:
+            x = tuple(x) if isinstance(x, (Row, tuple, list)) else x
+            if not isinstance(x, (str, int, tuple)) or isinstance(x, tuple) and not all(isinstance(y, (str, int)) for y in x):
+                return IndexVals(len(items))                # labels not literal: an index of unknown labels
+            labels.append(x)
+        return IndexVals(len(items), labels)
     if name == "np.where" and len(args) == 1 and isinstance(args[0], Vec) and all(isinstance(x, bool) for x in args[0].v):
         r = Vec([i for i, x in enumerate(args[0].v) if x])
         r.exact = True
